@@ -80,6 +80,57 @@ theorem strLe_trans : ∀ a b c : Str, strLe a b = true → strLe b c = true →
 
 theorem strLe_order : TotalOrder strLe := ⟨strLe_total, strLe_trans, strLe_antisymm⟩
 
+theorem pairLe_total (a b : Str × Str) : pairLe a b = true ∨ pairLe b a = true := by
+  unfold pairLe
+  by_cases h : a.1 = b.1
+  · have h' : b.1 = a.1 := h.symm
+    rw [if_pos h, if_pos h']
+    exact strLe_total _ _
+  · have h' : ¬ b.1 = a.1 := fun e => h e.symm
+    rw [if_neg h, if_neg h']
+    exact strLe_total _ _
+
+theorem pairLe_antisymm (a b : Str × Str) (hab : pairLe a b = true) (hba : pairLe b a = true) : a = b := by
+  unfold pairLe at hab hba
+  by_cases h : a.1 = b.1
+  · have h' : b.1 = a.1 := h.symm
+    rw [if_pos h] at hab
+    rw [if_pos h'] at hba
+    exact Prod.ext h (strLe_antisymm _ _ hab hba)
+  · have h' : ¬ b.1 = a.1 := fun e => h e.symm
+    rw [if_neg h] at hab
+    rw [if_neg h'] at hba
+    exact absurd (strLe_antisymm _ _ hab hba) h
+
+theorem pairLe_trans (a b c : Str × Str) (hab : pairLe a b = true) (hbc : pairLe b c = true) :
+    pairLe a c = true := by
+  unfold pairLe at hab hbc ⊢
+  by_cases h1 : a.1 = b.1
+  · by_cases h2 : b.1 = c.1
+    · have h3 : a.1 = c.1 := h1.trans h2
+      rw [if_pos h1] at hab
+      rw [if_pos h2] at hbc
+      rw [if_pos h3]
+      exact strLe_trans _ _ _ hab hbc
+    · have h3 : ¬ a.1 = c.1 := fun e => h2 (h1.symm.trans e)
+      rw [if_neg h2] at hbc
+      rw [if_neg h3, h1]; exact hbc
+  · by_cases h2 : b.1 = c.1
+    · have h3 : ¬ a.1 = c.1 := fun e => h1 (e.trans h2.symm)
+      rw [if_neg h1] at hab
+      rw [if_neg h3, ← h2]; exact hab
+    · rw [if_neg h1] at hab
+      rw [if_neg h2] at hbc
+      have hac := strLe_trans _ _ _ hab hbc
+      by_cases h3 : a.1 = c.1
+      · exfalso
+        rw [← h3] at hbc
+        exact h1 (strLe_antisymm _ _ hab hbc)
+      · rw [if_neg h3]
+        exact hac
+
+theorem pairLe_order : TotalOrder pairLe := ⟨pairLe_total, pairLe_trans, pairLe_antisymm⟩
+
 section Sorting
 variable {α β κ : Type} (le : κ → κ → Bool) (key : α → κ)
 
